@@ -224,9 +224,7 @@ def run : Prog → Option Path → KSt → CallRes × KSt × List Op
   | .buildFile path cmp fname args kwargs body k, t, s =>
     match Spec.bfSetup s.sp path with
     | .error e =>
-      let s := if e = .os .other then liftSp s fun sp => { sp with failFiles := sp.failFiles.erase path } else s
-      let s := liftSp s fun sp => { sp with obligation := sp.obligation || sp.inProg.any (fun c => Spec.properAncestor c path) }
-      let (r, s', ops) := run (k (.error e)) t s
+      let (r, s', ops) := run (k (.error e)) t (liftSp s fun sp => Spec.setupFailState sp path e)
       (r, s', .buildFile path cmp fname args kwargs [] .null .null true true "" :: ops)
     | .ok (sp1, made) =>
       -- `_make_room` / `_make_dirs`: leftovers that are physically in the way of the target or of its
@@ -261,8 +259,7 @@ def run : Prog → Option Path → KSt → CallRes × KSt × List Op
       let (r, s', ops) := run (k (.error (.runtime .dupSub))) t s
       (r, s', .subbuild fname args kwargs [] .null true true :: ops)
     else if s.sp.failSubs.any (heq key) then
-      let s := liftSp s fun sp => { sp with failSubs := sp.failSubs.filter (fun x => !heq key x) }
-      let (r, s', ops) := run (k (.error (.os .other))) t s
+      let (r, s', ops) := run (k (.error (.os .other))) t (liftSp s fun sp => Spec.consumeSubFault sp key)
       (r, s', .subbuild fname args kwargs [] .null true true :: ops)
     else
       let s1 := liftSp s fun sp => { sp with claimedSubs := key :: sp.claimedSubs }
